@@ -123,6 +123,11 @@ fn hook_chunks(hooks: &[Value]) -> Vec<Vec<Value>> {
     out
 }
 
+thread_local! {
+    /// the previous case's sprite, kept alive across the next load: (case id, sprite, its observation, full limits?)
+    static PREV: std::cell::RefCell<Option<(Value, AsepriteFile, Value, bool)>> = const { std::cell::RefCell::new(None) };
+}
+
 pub fn run_case(case: &Value, out: &mut Out) {
     let id = case["id"].clone();
     let mode = case.get("mode").and_then(|m| m.as_str()).unwrap_or("full").to_string();
@@ -198,6 +203,16 @@ pub fn run_case(case: &Value, out: &mut Out) {
     out.ev(&json!({"ev": "end", "case": id, "result": ld.result, "msg": ld.msg, "len": bytes.len(),
         "peak_kib": (ld.peak + 1023) / 1024, "maxreq_kib": (ld.maxreq + 1023) / 1024, "refused_kib": (ld.refused + 1023) / 1024,
         "hook_chunks": nhook_chunks}));
+    // a sprite is a value: loading ANOTHER file must not change what an earlier, still living sprite reports
+    PREV.with(|pv| {
+        if let Some((pid, pase, pobs, pfull)) = pv.borrow().as_ref() {
+            let lim = Limits { pixels: *pfull, max_canvas: if *pfull { 1 << 16 } else { 1 << 20 }, max_cels: if *pfull { 64 } else { 6 } };
+            let again = observe::observe(pase, &lim);
+            out.ev(&json!({"ev": "twice", "case": pid, "equal": &again == pobs, "after": id, "what": "earlier sprite re-observed after another load"}));
+        }
+        *pv.borrow_mut() = None;
+    });
+    let mut keep: Option<(Value, bool)> = None;
     if let Some(ase) = &ld.ase {
         if mode != "load" {
             let fullobs = mode == "full" || mode == "bytes";
@@ -217,10 +232,16 @@ pub fn run_case(case: &Value, out: &mut Out) {
                 }
                 out.ev(&json!({"ev": "twice", "case": id, "equal": same}));
             }
+            if bytes.len() <= 16 * 1024 {
+                keep = Some((obs.clone(), fullobs));
+            }
             out.ev(&json!({"ev": "obs", "case": id, "obs": obs}));
         }
     }
     out.ev(&json!({"ev": "done", "case": id}));
+    if let (Some((obs, full)), Some(ase)) = (keep, ld.ase) {
+        PREV.with(|pv| *pv.borrow_mut() = Some((id.clone(), ase, obs, full)));
+    }
     out.flush();
 }
 
